@@ -59,6 +59,8 @@ type c07Op struct {
 	B       int64  `json:"b,omitempty"`
 	Span    int64  `json:"span,omitempty"` // read: 0 = one step over everything, else fixed span sweep
 	Iter    bool   `json:"iter,omitempty"` // badopen: iterator instead of writer
+	Mixed   bool   `json:"mixed,omitempty"` // badopen: the missing key comes together with existing ones
+	Lease   int    `json:"lease,omitempty"` // badopen: node the missing key claims to be leased to
 }
 
 type c07Case struct {
@@ -125,7 +127,8 @@ func genC07(t *rapid.T) c07Case {
 		case k < 9:
 			c.Ops = append(c.Ops, c07Op{K: "local"})
 		default:
-			c.Ops = append(c.Ops, c07Op{K: "badopen", Gateway: gw, Iter: rapid.Bool().Draw(t, "biter")})
+			c.Ops = append(c.Ops, c07Op{K: "badopen", Gateway: gw, Iter: rapid.Bool().Draw(t, "biter"), Mixed: rapid.Bool().Draw(t, "bmixed"),
+				Lease: rapid.IntRange(1, c.Nodes).Draw(t, "blease"), Groups: subset("bg")})
 		}
 	}
 	c.Ops = append(c.Ops, c07Op{K: "read", Gateway: rapid.IntRange(1, c.Nodes).Draw(t, "fgw"), Groups: subset("fg"), A: 0, B: 1 << 30}, c07Op{K: "local"})
@@ -519,15 +522,31 @@ func runC07Body(c c07Case, st *drv.Stats) (fail *drv.Failure) {
 			}
 			st.Probe("local_stores_checked")
 		case "badopen":
-			bogus := channel.NewKey(node.Key(op.Gateway), 4000+channel.LocalKey(oi))
+			lease := op.Lease
+			if lease == 0 {
+				lease = op.Gateway
+			}
+			bogus := channel.NewKey(node.Key(lease), 4000+channel.LocalKey(oi))
+			bkeys := channel.Keys{bogus}
+			if op.Mixed {
+				for _, gi := range op.Groups {
+					for _, ch := range byGroup[gi] {
+						bkeys = append(bkeys, ch.ch.Key())
+					}
+				}
+				st.Probe("open_on_missing_channel_among_existing_ones")
+			}
+			if lease != op.Gateway {
+				st.Probe("open_on_missing_channel_leased_elsewhere")
+			}
 			if op.Iter {
-				it, err := cluster.Nodes[node.Key(op.Gateway)].Framer.OpenIterator(ctx, iterator.Config{Keys: channel.Keys{bogus}, Bounds: telem.TimeRangeMax})
+				it, err := cluster.Nodes[node.Key(op.Gateway)].Framer.OpenIterator(ctx, iterator.Config{Keys: bkeys, Bounds: telem.TimeRangeMax})
 				if err == nil {
 					_ = it.Close()
 					return drv.Failf("open-on-missing-channel-succeeded", "iterator", "%s: opening an iterator on channel %v, which does not exist, succeeded", what, bogus)
 				}
 			} else {
-				w, err := cluster.Nodes[node.Key(op.Gateway)].Framer.OpenWriter(ctx, writer.Config{Keys: channel.Keys{bogus}, Start: telem.TimeStamp(next * c07Unit), Sync: new(true)})
+				w, err := cluster.Nodes[node.Key(op.Gateway)].Framer.OpenWriter(ctx, writer.Config{Keys: bkeys, Start: telem.TimeStamp(3000 * c07Unit), Sync: new(true)})
 				if err == nil {
 					_ = w.Close()
 					return drv.Failf("open-on-missing-channel-succeeded", "writer", "%s: opening a writer on channel %v, which does not exist, succeeded", what, bogus)
